@@ -6,6 +6,7 @@ HARNESSES = [
     dict(name="c06", kind="schedn", srcs=["harness/c06/c06_locks.cpp"]),
     dict(name="c10", kind="sched", srcs=["harness/c10/c10_morph.cpp"]),
     dict(name="dharness", kind="dist", srcs=["harness/dist/dharness.cpp"]),
+    dict(name="netharness", kind="dist", srcs=["harness/dist/netharness.cpp"]),
     dict(name="c14a", kind="asan", srcs=["harness/c14/c14a_seq.cpp"]),
     dict(name="c14afz", kind="fuzz", srcs=["harness/c14/c14a_seq.cpp"], defs=["-DVERIF_LIBFUZZER"]),
     dict(name="c17a", kind="asan", srcs=["harness/c17/c17a_serialize.cpp"]),
@@ -270,6 +271,26 @@ PROPS = {
         level_note="trusted: libstdc++ algorithms as reference; unit c16 runs real threads (schedules sampled), unit c16e1 runs sort/partition/find_if/partial_sum with <=5000 elements under gsched-controlled schedules of the block-claiming helpers; <=16 threads (partial_sum's empty-block path needs more blocks than this machine has threads)",
         assumptions=["the 3-argument ParallelSTL::accumulate is ambiguous with std::accumulate via ADL when <numeric> is visible; the 4-argument form is tested",
                      "dyadic doubles for floating-point accumulation"],
+    ),
+    "C17": dict(
+        variants={"fuzz": ["galois_shmem"], "native": ["galois_shmem", "galois_dist_async", "galois_gluon", "distbench"]},
+        extra_harnesses=["netharness"],
+        units=[dict(type="rc", harness="c17a", quick=60000, thorough=3000000, workers=8, enumerate=True),
+               dict(type="fuzz", harness="c17afz", quick=80000, thorough=20000000, workers=8, max_len=600),
+               dict(type="hyp", harness="py:c17b", quick=100, thorough=4000, workers=5)],
+        engine="rapidcheck (in-process, ASan+UBSan) + libFuzzer + hypothesis over MPI subprocesses",
+        technique="round-trip property testing: generated value trees (86 type menu entries, concatenations of 1..8 values, junk prefix/suffix, 7 ways of building the DeSerializeBuffer) serialised and deserialised into fresh targets, compared value-for-value and byte-count-for-byte-count, also coverage-guided; network part: PRF-defined global message plans executed by an MPI harness with 1..4 hosts x 1..4 sender threads, every host checks exactly-once, per-(source,thread,tag) order, checksums and barrier stamps",
+        rule=("unit c17a/c17afz: case = menu slots + values in the tail; non-trivial = the tree contains a non-linear sequence (vector of "
+              "non-copyable elements or gdeque) or a POD sequence whose payload is misaligned in the real buffer. unit py:c17b: case = "
+              "(hosts, sender threads, phases, messages per thread, size class around 1400 B / 2^16 / up to 3 MB, tags, seed); non-trivial "
+              "= >=2 hosts AND >=2 sender threads AND >=1 message > 1400 bytes; distinct = hash of the case"),
+        level_text=("(a) decoded == original, consumed == produced == gSized where the library's formula is exact, suffix bytes untouched; "
+                    "(b) every planned message delivered exactly once with identical payload and the source the network reports, sequence "
+                    "numbers per (source, thread, tag) strictly increasing in receive order, no extra message, after the k-th host barrier "
+                    "every rank's stamp >= k. Exploration only."),
+        level_note="trusted: harness size model, PRF plan, OpenMPI on one machine (message arrival orders sampled); types that do not compile through gSerialize (std::deque, vector<bool>, std::tuple objects, ...) are unsupported and not tested",
+        assumptions=["strings without embedded NUL; deserialisation into fresh targets; zero-length messages are not sent",
+                     "ordering is checked per (source host, sender thread, tag): messages of different threads of one host are not ordered against each other by the sender"],
     ),
     "C18": dict(
         variants={"native": ["galois_shmem", "galois_dist_async", "galois_gluon", "distbench"]},
